@@ -65,6 +65,9 @@ def run(ctx):
     # R08.4: the ikm handed over at those sites reaches the extract whole (a clamp to 64 bytes inside the shared helper drops
     # the static-static DH of P-521 and nothing at the call sites changes)
     c03.check_extract_and_expand(rep, facts, rule='R08.4')
+    from . import c02 as _c02
+    _c02.check_labeled_extract(rep, facts, rule='R08.4')
+    _c02.check_labeled_expand(rep, facts, rule='R08.4')
     n2 = modes.check_identity_accessors(rep, facts, 'R08.2')
     rep.floor('R08.2', 'identity accessors', n2, 2)
     check_setup_passes_identity(rep, facts)
